@@ -364,6 +364,18 @@ func history(r *ev.Run, c *ev.Case, hi int, slowCA ...time.Duration) {
 				}
 			}
 			r.Count("failed runs that left earlier certificates in place ("+outcome+")", 1)
+			if outcome == "unconfigured-ca-algorithm" && (hi+run)%2 == 0 {
+				// the requester tidies up: the plain key the refused run left in his agent is deleted (ssh-add -d).
+				// Whatever the handler remembers of that run, the next one provisions a key the agent holds.
+				for _, a := range adds {
+					if a.Certificate != nil || a.PrivateKey == nil {
+						continue
+					}
+					if sg, e := ssh.NewSignerFromKey(a.PrivateKey); e == nil && ag.Keyring.Remove(sg.PublicKey()) == nil {
+						r.Count("plain keys left behind by a refused run and then deleted by the requester", 1)
+					}
+				}
+			}
 			sigParts = append(sigParts, outcome)
 			if outcome == "agent-close" {
 				rig.Close()
